@@ -353,9 +353,23 @@ func execOn(f *encrypt.Filter, hs *hstate, c Case, n int) (res result) {
 		}
 	}
 	pr := &projector{cl: cl}
-	e := &el.Event{Type: "t", CreatedAt: fixedTime, Payload: pv, Formatted: map[string][]byte{"json": []byte("formatted")}}
-	snap := func() string {
-		s := fmt.Sprintf("%s|%d|%v|", e.Type, e.CreatedAt.UnixNano(), e.Formatted)
+	// the event as Broker.Send hands it over: mostly with formatted data of earlier nodes, now and then with a nil or an empty map
+	var formatted map[string][]byte
+	switch c.ID % 5 {
+	case 0:
+	case 1:
+		formatted = map[string][]byte{}
+	default:
+		formatted = map[string][]byte{"json": []byte("formatted"), "text": []byte("formatted as text")}
+	}
+	e := &el.Event{Type: "t", CreatedAt: fixedTime, Payload: pv, Formatted: formatted}
+	snap := func() (s string) {
+		defer func() {
+			if r := recover(); r != nil {
+				s = fmt.Sprintf("the input can no longer be projected: %v", r)
+			}
+		}()
+		s = fmt.Sprintf("%s|%d|%v|%v|", e.Type, e.CreatedAt.UnixNano(), e.Formatted == nil, e.Formatted)
 		if e.Payload != nil && c.PK == "val" {
 			s += pr.lit(reflect.ValueOf(e.Payload))
 		}
@@ -415,12 +429,31 @@ func execOn(f *encrypt.Filter, hs *hstate, c Case, n int) (res result) {
 		}
 		obs = fmt.Sprintf("(ObOut %s {| of_sametype := %s; of_meta := %s; of_json := %s |})", res.outLit, hc.B(sameType), hc.B(meta), hc.NList(found))
 	}
+	// aliasing: whatever a later node does to the forwarded event (a formatter writes Formatted, a filter rewrites the
+	// payload) must not show in the event the caller and the other pipelines hold
+	unaliased := true
+	if res.obs == "out" && out != e {
+		func() {
+			defer func() { recover() }()
+			out.FormattedAs("verif-new-format", []byte("written by a later node"))
+			for k, v := range out.Formatted {
+				if len(v) > 0 {
+					v[0] ^= 0xff
+				}
+				out.Formatted[k] = append(v, '!')
+			}
+			if out.Payload != nil {
+				mutate(reflect.ValueOf(out.Payload), 0)
+			}
+		}()
+		unaliased = snap() == before
+	}
 	res.class = payloadClass(c.PK, c.V)
 	_, o0 := opOf(c.Cfg.Ov[0])
 	_, o1 := opOf(c.Cfg.Ov[1])
 	_, o2 := opOf(c.Cfg.Ov[2])
-	res.lit = fmt.Sprintf("{| e_id := %s; e_class := %s; e_ov := {| ov_public := %s; ov_sensitive := %s; ov_secret := %s |}; e_wrap := %s; e_key := %s; e_ekey := 2%%N; e_encfail := %s; e_hmacfail := %s;\n   e_payload := %s;\n   e_unchanged := %s; e_snaponly := %s; e_obs := %s |}",
-		hc.N(c.ID), hc.N(res.class), o0, o1, o2, hc.B(c.Cfg.Wrap != "absent"), hc.N(keyID), hc.NList(c.Cfg.EncFail), hc.B(c.Cfg.Wrap == "failing"), payloadLit, hc.B(unchanged), hc.B(c.SnapOnly), obs)
+	res.lit = fmt.Sprintf("{| e_id := %s; e_class := %s; e_ov := {| ov_public := %s; ov_sensitive := %s; ov_secret := %s |}; e_wrap := %s; e_key := %s; e_ekey := 2%%N; e_encfail := %s; e_hmacfail := %s;\n   e_payload := %s;\n   e_unchanged := %s; e_unaliased := %s; e_snaponly := %s; e_obs := %s |}",
+		hc.N(c.ID), hc.N(res.class), o0, o1, o2, hc.B(c.Cfg.Wrap != "absent"), hc.N(keyID), hc.NList(c.Cfg.EncFail), hc.B(c.Cfg.Wrap == "failing"), payloadLit, hc.B(unchanged), hc.B(unaliased), hc.B(c.SnapOnly), obs)
 	res.nontriv = res.obs == "out" && res.outLit != res.inLit
 	return res
 }
@@ -433,6 +466,59 @@ func safeLit(pr *projector, rv reflect.Value) (lit string) {
 		}
 	}()
 	return pr.lit(rv)
+}
+
+// mutate rewrites everything reachable from a forwarded payload: strings and byte slices in place, every slice element,
+// every map entry (and a new key), every pointer target
+func mutate(rv reflect.Value, depth int) {
+	if !rv.IsValid() || depth > 12 {
+		return
+	}
+	switch rv.Kind() {
+	case reflect.Ptr, reflect.Interface:
+		if !rv.IsNil() {
+			mutate(rv.Elem(), depth+1)
+		}
+	case reflect.String:
+		if rv.CanSet() {
+			rv.SetString("MUTATED")
+		}
+	case reflect.Int, reflect.Int64:
+		if rv.CanSet() {
+			rv.SetInt(rv.Int() + 1)
+		}
+	case reflect.Struct:
+		for i := 0; i < rv.NumField(); i++ {
+			if rv.Type().Field(i).PkgPath == "" {
+				mutate(rv.Field(i), depth+1)
+			}
+		}
+	case reflect.Slice:
+		for i := 0; i < rv.Len(); i++ {
+			el := rv.Index(i)
+			if el.Kind() == reflect.Uint8 {
+				el.SetUint(uint64(el.Uint()) ^ 0xff)
+			} else {
+				mutate(el, depth+1)
+			}
+		}
+	case reflect.Map:
+		if rv.IsNil() || rv.Type().Key().Kind() != reflect.String {
+			return
+		}
+		for _, k := range rv.MapKeys() {
+			v := rv.MapIndex(k)
+			mutate(v, depth+1)
+			et := rv.Type().Elem()
+			switch {
+			case et.Kind() == reflect.String:
+				rv.SetMapIndex(k, reflect.ValueOf("MUTATED").Convert(et))
+			case et.Kind() == reflect.Interface && v.Elem().IsValid() && v.Elem().Kind() == reflect.String:
+				rv.SetMapIndex(k, reflect.ValueOf("MUTATED"))
+			}
+		}
+		rv.SetMapIndex(reflect.ValueOf("zz-added-by-a-later-node").Convert(rv.Type().Key()), reflect.Zero(rv.Type().Elem()))
+	}
 }
 
 type emitter struct {
